@@ -90,6 +90,20 @@ def r_child_abc(ck: Checker, rule: str = "R-PRESENCE") -> None:
                     n += 1
                     ck.violation(rule, f, c, what, positive=True, construct=f"{f.qualname}: {norm(c)[:60]} decides how a child value is handled (a node class may satisfy this ABC)")
                     return
+    # helpers of later origin (as written: they may not be inlinable, e.g. generators) that enumerate child values
+    from .state_rules import _raw_functions
+    for m_ in mods:
+        for q, fn, _cls in _raw_functions(m_):
+            if not ck.repo.is_new_helper(m_, q):
+                continue
+            if not any(isinstance(c, ast.Call) and isinstance(c.func, ast.Attribute) and c.func.attr in ("iter_child_fields", "get_child_nodes", "get_child_nodes_with_field") for c in ast.walk(fn)):
+                continue
+            for c in ast.walk(fn):
+                if isinstance(c, ast.Call) and dotted(c.func) == "isinstance" and len(c.args) == 2:
+                    names = {x.id for x in ast.walk(c.args[1]) if isinstance(x, ast.Name)} | {x.attr for x in ast.walk(c.args[1]) if isinstance(x, ast.Attribute)}
+                    if names & ABC_NAMES:
+                        ck.violation(rule, (m_.rel, q), c, what, positive=True, construct=f"{q}: {norm(c)[:60]} decides how a child value is handled (a node class may satisfy this ABC)")
+                        return
     ck.holds(rule, ("src/pyoak", "node.py, visitor.py, tree.py"), None, what)
     # `children` is the list of get_child_nodes()
     ch = ck.repo.func("pyoak.node", "ASTNode.children")
@@ -263,6 +277,47 @@ def r_flags_tt(ck: Checker, rule: str = "R-FLAGS-TT") -> None:
             ck.holds(rule, fr.builder, fr.builder.node, what, evaluations=rows, fragment=fr.text)
     if n < 16:
         ck.incomplete(rule, None, None, f"only {n} descriptors evaluated (16 expected)")
+
+
+def r_gen_signature(ck: Checker, rule: str = "R-FLAGS-TT") -> None:
+    """The function a generator installs replaces the public method of the same name: its parameter list (as the generator computes it, by
+    partial evaluation) has the parameters of the public signature in the same positional order, with the same defaults and the same
+    keyword-only part — a caller passing the flags positionally reaches the same flags before and after specialisation."""
+    from ..geneval import Fld, TypeInfo, run_generator
+    pairs = (("_gen_get_properties_func", "ASTNode.get_properties", "name"), ("_gen_get_child_nodes_func", "ASTNode.get_child_nodes", "kid"),
+             ("_gen_get_child_nodes_with_field_func", "ASTNode.get_child_nodes_with_field", "kid"), ("_gen_iter_child_fields_func", "ASTNode.iter_child_fields", "kid"))
+
+    def sig(a: ast.arguments) -> tuple:
+        pos = [x.arg for x in a.posonlyargs + a.args if x.arg != "self"]
+        dpos = [norm(d) for d in a.defaults]
+        kwo = [(x.arg, norm(d) if d is not None else None) for x, d in zip(a.kwonlyargs, a.kw_defaults)]
+        return (pos, dpos[-len(pos):] if pos else [], sorted(kwo), a.vararg is not None, a.kwarg is not None)
+    for gen, public, fname in pairs:
+        g = ck.repo.func(CODEGEN, gen)
+        pub = ck.repo.func("pyoak.node", public)
+        cap = run_generator(ck.repo, gen, [(Fld(fname, True, True), TypeInfo(False))])
+        if not isinstance(cap.extra_args, str):
+            raise Unsupported(f"{gen}: the parameter list handed to _gen_func is not text", g.node)
+        try:
+            emitted = ast.parse(f"def f(self, {cap.extra_args}): pass").body[0].args  # type: ignore[attr-defined]
+        except SyntaxError:
+            raise Unsupported(f"{gen}: emitted parameter list does not parse: {cap.extra_args!r}", g.node)
+        what = f"{gen}: the generated function takes the parameters of {public} in the same order with the same defaults"
+        want, got = sig((pub.raw or pub.node).args), sig(emitted)
+
+        def defaults_of(a: ast.arguments) -> dict:
+            pos_ = [x.arg for x in a.posonlyargs + a.args]
+            d_ = {n_: norm(v_) for n_, v_ in zip(pos_[len(pos_) - len(a.defaults):], a.defaults)}
+            d_.update({x.arg: norm(v_) for x, v_ in zip(a.kwonlyargs, a.kw_defaults) if v_ is not None})
+            return d_
+        dw, dg = defaults_of((pub.raw or pub.node).args), defaults_of(emitted)
+        # what a documented call can observe: the public positional parameters are the leading positional parameters of the generated
+        # function, and every public parameter exists there with the same default
+        if got[0][:len(want[0])] == want[0] and all(dg.get(k) == v for k, v in dw.items()) and not got[3] and not got[4]:
+            ck.holds(rule, g, g.node, what, parameters=cap.extra_args.strip()[:120])
+        else:
+            ck.violation(rule, g, g.node, what, positive=True,
+                         construct=f"{gen}: generated parameters ({', '.join(got[0])}) vs public ({', '.join(want[0])}) — a positional argument reaches another flag once the class has been specialised")
 
 
 def _dkey(d: dict) -> str:
@@ -472,6 +527,28 @@ def r_types_cache(ck: Checker, rule: str = "R-TYPES-CACHE") -> None:
                 ck.violation(rule, f, early, "the per-class tables get their entry only after process_node_fields(cls, ASTNode) has succeeded", positive=True,
                              construct=f"_populate_type_dicts: {norm(early)[:60]} creates the entry before the fields are classified: when the classification raises "
                              "(unresolved forward reference, invalid annotation) an empty entry stays behind and later lookups are answered from it")
+                return
+    # the same defect spelled incrementally: the tables are filled field by field while a classifier stream is still being consumed
+    for lp_ in [x for x in ast.walk(f.raw or f.node) if isinstance(x, ast.For)]:
+        it_ = lp_.iter
+        streaming = isinstance(it_, ast.Call) and not (dotted(it_.func) or "").split(".")[-1] in ("items", "keys", "values", "list", "tuple", "sorted", "dict", "enumerate", "zip")
+        if not streaming:
+            continue
+        for n_ in ast.walk(lp_):
+            hit = None
+            if isinstance(n_, ast.Call) and isinstance(n_.func, ast.Attribute) and n_.func.attr in ("setdefault", "__setitem__", "update") and norm(n_.func.value) in TABLES:
+                hit = n_
+            elif isinstance(n_, ast.Subscript) and isinstance(n_.ctx, ast.Store) and norm(n_.value) in TABLES:
+                hit = n_
+            elif isinstance(n_, ast.Call) and isinstance(n_.func, ast.Attribute) and n_.func.attr == "setdefault" and isinstance(n_.func.value, ast.Name):
+                # table = A if c else B; table.setdefault(cls, {})
+                defs_ = [st_.value for st_ in ast.walk(lp_) if isinstance(st_, ast.Assign) and len(st_.targets) == 1 and norm(st_.targets[0]) == n_.func.value.id]
+                if defs_ and any(isinstance(x_, ast.Name) and x_.id in TABLES for d_ in defs_ for x_ in ast.walk(d_)):
+                    hit = n_
+            if hit is not None:
+                ck.violation(rule, f, hit, "the per-class tables get their entry only after the classification of all fields has succeeded", positive=True,
+                             construct=f"_populate_type_dicts: {norm(hit)[:60]} inside the loop over {norm(it_)[:40]}: the entry exists while fields are still being classified; "
+                             "when a later field is rejected (the error is raised at the end) a partial entry stays behind and the class counts as classified")
                 return
     for lf in leaves:
         if lf.outcome not in ("fall", "return"):
@@ -757,3 +834,26 @@ def r_field_order(ck: Checker, rule: str = "R-ORDER-KEY") -> None:
             ck.violation(rule, f, hit, what, positive=True, construct=f"process_node_fields: {norm(hit)[:70]} re-orders the fields (declaration order is what get_child_nodes / iter_child_fields promise)")
             return
     ck.holds(rule, f, f.node, what)
+    # the table process_node_fields walks is built by get_field_types: its insertion order must be the order of dataclasses.fields(type_),
+    # not the order of get_type_hints (annotations merged along the MRO: a re-declared name keeps the place of its first declaration in a
+    # non-dataclass base, names of annotated non-dataclass bases come first)
+    g = ck.repo.func("pyoak.typing", "get_field_types")
+    gfn = g.raw or g.node
+    what2 = "get_field_types lists the fields in the order of dataclasses.fields(type_) (the loop that fills its result runs over the fields, not over the resolved hints)"
+    returned = {n.id for r in ast.walk(gfn) if isinstance(r, ast.Return) and r.value is not None for n in ast.walk(r.value) if isinstance(n, ast.Name)}
+    hint_vars = {st.targets[0].id for st in ast.walk(gfn) if isinstance(st, ast.Assign) and len(st.targets) == 1 and isinstance(st.targets[0], ast.Name)
+                 and isinstance(st.value, ast.Call) and (dotted(st.value.func) or "").split(".")[-1] == "get_type_hints"}
+    for lp in [x for x in ast.walk(gfn) if isinstance(x, (ast.For, ast.DictComp))]:
+        it = lp.iter if isinstance(lp, ast.For) else lp.generators[0].iter
+        fills = isinstance(lp, ast.DictComp) or any(isinstance(x, ast.Subscript) and isinstance(x.ctx, ast.Store) and norm(x.value) in returned for x in ast.walk(lp))
+        if not fills:
+            continue
+        base = it
+        while isinstance(base, ast.Call) and isinstance(base.func, ast.Attribute) and base.func.attr in ("items", "keys", "values"):
+            base = base.func.value
+        over_hints = (isinstance(base, ast.Call) and (dotted(base.func) or "").split(".")[-1] == "get_type_hints") or (isinstance(base, ast.Name) and base.id in hint_vars)
+        if over_hints:
+            ck.violation(rule, g, lp, what2, positive=True,
+                         construct=f"get_field_types: the result is filled in the order of {norm(it)[:50]} — with an annotated non-dataclass class in the MRO that is not the declaration order of the fields")
+            return
+    ck.holds(rule, g, g.node, what2)
